@@ -80,7 +80,7 @@ class Agg:
         self.quiescent += st.get("quiescent", 0)
         self.capped += 1 if st.get("capped") else 0
         self.mut_ops += st.get("mut_ops", 0)
-        for k, v in st.get("extra", {}).items():
+        for k, v in (st.get("extra") or {}).items():
             self.extra[k] += v
         if len(self.samples) < 3 and res.get("brief") is not None:
             self.samples.append(res["brief"])
